@@ -428,4 +428,45 @@ def main(tier):
         "(gap fill / reordering) or a send trace with loss after emission or ack of a middle range; distinct by op-sequence hash."
     )
     ctx.cov["exhaustive"] = True
+
+    def search():
+        # failing-input search: deeper exhaustive scope + many more random histories,
+        # oracle only (the implementation is what is being searched)
+        rr = rng.make("c10-search")
+        for case in list(recv_exhaustive(3, 4)) + list(recv_random(rr, 4000, 60, 4096)):
+            impl = StreamImpl()
+            out = [impl.step(l) for l in case]
+            p = oracle_recv(ctx, case, out)
+            if p:
+                ctx.witness(p, {"ops": case, "impl_output": out}, {"oracle": "recv"})
+                return
+        for _ in range(8000):
+            sd = SendDriver(StreamImpl(), rr)
+            p = sd.run(rr.choice([8, 20, 60]))
+            if p:
+                ctx.witness(p, {"ops": sd.lines, "impl_output": sd.outs}, {"oracle": "send"})
+                return
+
+    ctx.search = search
     return ctx.finish()
+
+
+def replay(path):
+    """re-execute a replay file against the current tree"""
+    import json
+    tree.activate()
+    from harness.impl_stream import StreamImpl
+    d = json.load(open(path))
+    if d.get("kind") != "impl-witness":
+        print("replay names a broken obligation/correspondence, nothing to execute:", json.dumps(d.get("broken", []))[:400])
+        return 1
+    ops = d["replay"]["ops"]
+    impl = StreamImpl()
+    out = [impl.step(l) for l in ops]
+    if ops[0].startswith("recv"):
+        p = oracle_recv(None, ops, out)
+    else:
+        p = None if out == d["replay"]["impl_output"] else "output differs from the recorded failing run"
+        p = p or d["what"]
+    print("still failing: " + p if p else "no longer failing")
+    return 1 if p else 0
